@@ -27,6 +27,10 @@ def roles(seed):
         r['U'], r['D'] = (['4', '21'], ['21', '4'])[(seed // 2) % 2]
         r['X'] = '38;5;%d' % (100 + (seed * 37) % 150)
         r['T'] = '48;2;%d;%d;%d' % (1 + seed % 9, 2 + seed % 7, 3 + seed % 5)
+    from .hist import spell
+    r['e'] = spell(r['R'], 'enum')      # the same red through other documented spellings
+    r['g'] = spell(r['R'], 'nest')
+    r['m'] = spell(r['R'], 'name')
     return r
 
 
@@ -36,12 +40,32 @@ def letters(seed, n):
     return base[k:k + n]
 
 
+LONG = 300     # length of the plain prefix of 'long' layouts: change points beyond 256 (and three-digit indices)
+
+
+def positions(L):
+    """Index positions used for ranges: all of them on short texts; on long texts both ends."""
+    if L <= 8:
+        return list(range(0, L + 1))
+    return [0, L - 2, L - 1, L]
+
+
 def ranges(L, empty=False):
     out = []
-    for s in range(0, L + 1):
-        for e in range(s if empty else s + 1, L + 1):
-            out.append((s, e))
+    ps = positions(L)
+    for s in ps:
+        for e in ps:
+            if e > s or (empty and e == s):
+                out.append((s, e))
     return out
+
+
+def probe_bounds(L, lo=2, hi=2):
+    """Raw (start / stop) values for probes: every integer in [-L-lo .. L+hi] plus None on short texts; on long
+    texts the values around both ends, their negative counterparts and the out-of-range ones."""
+    if L <= 8:
+        return list(range(-L - lo, L + hi + 1)) + [None]
+    return [None, 0, 1, L - 2, L - 1, L, L + 1, L + hi, -1, -2, -L, -L - 1, -L - lo]
 
 
 def gen_apply_remove(L, codes, topmost=(True, False), remove_none=True):
@@ -161,7 +185,7 @@ def std_gen(task, seed, maxlen=6):
 
     def gen(v, h):
         L = len(v)
-        if L > maxlen:
+        if L > maxlen and not (LONG <= L <= LONG + maxlen):
             return []
         ops = cache.get(L)
         if ops is None:
@@ -189,10 +213,21 @@ def std_pool(task, seed, acc=None):
         if len(h) == 1:
             return ops[part::parts]
         return ops
-    pool = bfs([[[task['layout'], text]]], gen_part, task['depth'])
+    seed_hist = [['plain', 'y' * LONG + text]] if task['layout'] == 'long' else [[task['layout'], text]]
+    pool = bfs([seed_hist], gen_part, task['depth'])
     if part != 0:
         pool.items = [(h, v) for (h, v) in pool.items if len(h) > 1]
     if acc is not None:
         acc.counters['quarantined'] += pool.quarantined
         acc.counters['generator_transitions'] += pool.transitions
     return pool
+
+
+def plan_override(pid, default):
+    """Investigation aid: VERIF_PLAN_<ID>='[[2, ["plain"], "RBWN", 3, false]]' replaces a check's pool plan."""
+    import json
+    import os
+    v = os.environ.get('VERIF_PLAN_' + pid)
+    if not v:
+        return default
+    return [(p[0], tuple(p[1]), p[2], p[3], p[4]) for p in json.loads(v)]
